@@ -37,26 +37,30 @@ Definition data_ok (coords data : list shape) : bool :=
 
 Definition is_some {A} (o : option A) : bool := match o with Some _ => true | None => false end.
 
-(** the weights branch of check_fit_input AS WRITTEN: sizes, not shapes *)
+(** the weights branch of check_fit_input as written (after commit 41aa6b9):
+    [np.shape(w) != np.shape(d) and np.shape(w) != (np.size(d),)] raises;
+    np.shape(None) is () *)
+Definition wshape (w : option shape) : shape := match w with Some s => s | None => [] end.
+
+Definition fitsb (ws d : shape) : bool := shape_eqb ws d || shape_eqb ws [size d].
+
 Definition weights_ok (data : list shape) (weights : list (option shape)) : bool :=
   if existsb is_some weights then
     Nat.eqb (length weights) (length data) &&
-    forallb (fun w => match w with
-                      | None => match data with [] => true | _ => false end   (* None.size raises *)
-                      | Some ws => forallb (fun d => Nat.eqb (size ws) (size d)) data
-                      end) weights
+    forallb (fun w => forallb (fun d => fitsb (wshape w) d) data) weights
   else true.
 
 Definition check_fit_input (coords data : list shape) (weights : list (option shape)) : bool :=
   check_coordinates coords && data_ok coords data && weights_ok data weights.
 
-(** what the property text asks for: weights of the data's SHAPE *)
+(** what the property text asks for: every weight an array aligned with the
+    data (a None among arrays is inconsistent) *)
 Definition weights_strict (data : list shape) (weights : list (option shape)) : bool :=
   if existsb is_some weights then
     Nat.eqb (length weights) (length data) &&
     forallb (fun w => match w with
-                      | None => match data with [] => true | _ => false end
-                      | Some ws => forallb (fun d => shape_eqb ws d) data
+                      | None => false
+                      | Some ws => forallb (fun d => fitsb ws d) data
                       end) weights
   else true.
 
@@ -89,6 +93,10 @@ Definition grid_args (r : list Z) (shape_given : bool) (spacing_len : option nat
 Definition vectorspline_fit (coords data : list shape) (weights : list (option shape)) : bool :=
   check_fit_input coords data weights && Nat.eqb (length data) 2.
 
+(** Vector.fit (after commit c7fb303): check_fit_input, then one data component per estimator *)
+Definition vector_fit (ncomp : nat) (coords data : list shape) (weights : list (option shape)) : bool :=
+  check_fit_input coords data weights && Nat.eqb (length data) ncomp.
+
 (** ------------------------------------------------------------------ *)
 (** consistency predicates (the specification) *)
 
@@ -97,15 +105,26 @@ Definition same_shapes (l : list shape) : Prop := forall a b, In a l -> In b l -
 Definition data_matches (coords data : list shape) : Prop :=
   data = [] \/ exists s0 t, coords = s0 :: t /\ forall d, In d data -> d = s0.
 
-Definition weights_match (eqv : shape -> shape -> Prop) (data : list shape) (weights : list (option shape)) : Prop :=
+(** a weight array is aligned with a data array: same shape, or the raveled
+    1-D form of it (what check_fit_input itself returns and passes on) *)
+Definition weight_fits (ws d : shape) : Prop := ws = d \/ ws = [size d].
+
+(** the code: a None among arrays counts as a 0-d array *)
+Definition weights_match (data : list shape) (weights : list (option shape)) : Prop :=
+  (forall w, In w weights -> w = None) \/
+  (length weights = length data /\ forall w d, In w weights -> In d data -> weight_fits (wshape w) d).
+
+(** the specification: all None, or one ARRAY per component, each aligned *)
+Definition weights_match_strict (data : list shape) (weights : list (option shape)) : Prop :=
   (forall w, In w weights -> w = None) \/
   (length weights = length data /\
-   forall w, In w weights -> (exists ws, w = Some ws /\ forall d, In d data -> eqv ws d) \/ (w = None /\ data = [])).
+   forall w, In w weights -> exists ws, w = Some ws /\ forall d, In d data -> weight_fits ws d).
 
-Definition same_size (a b : shape) : Prop := size a = size b.
+Definition fit_input_consistent coords data weights : Prop :=
+  same_shapes coords /\ data_matches coords data /\ weights_match data weights.
 
-Definition fit_input_consistent_by (eqv : shape -> shape -> Prop) coords data weights : Prop :=
-  same_shapes coords /\ data_matches coords data /\ weights_match eqv data weights.
+Definition fit_input_consistent_strict coords data weights : Prop :=
+  same_shapes coords /\ data_matches coords data /\ weights_match_strict data weights.
 
 Definition region_valid (r : list Z) : Prop :=
   exists w e s n, r = [w; e; s; n] /\ (w <= e)%Z /\ (s <= n)%Z.
@@ -120,7 +139,8 @@ Inductive call :=
 | CRegion (r : list Z)
 | CGrid (r : list Z) (shape_given : bool) (spacing_len : option nat)
 | COneOf (shape_given spacing_given : bool)
-| CVecSpline (coords data : list shape) (weights : list (option shape)).
+| CVecSpline (coords data : list shape) (weights : list (option shape))
+| CVector (ncomp : nat) (coords data : list shape) (weights : list (option shape)).
 
 (** the code as written *)
 Definition run (c : call) : bool :=
@@ -133,13 +153,15 @@ Definition run (c : call) : bool :=
   | CGrid r sh sp => grid_args r sh sp
   | COneOf sh sp => one_of sh sp
   | CVecSpline co d w => vectorspline_fit co d w
+  | CVector n co d w => vector_fit n co d w
   end.
 
-(** what the property demands be accepted at most (strict: weights by shape) *)
+(** what the property demands be accepted at most (strict: every weight an aligned array) *)
 Definition consistentb (c : call) : bool :=
   match c with
   | CFitInput co d w => fit_input_strict co d w
   | CVecSpline co d w => fit_input_strict co d w && Nat.eqb (length d) 2
+  | CVector n co d w => fit_input_strict co d w && Nat.eqb (length d) n
   | _ => run c
   end.
 
